@@ -126,9 +126,12 @@ func genJID(t *rapid.T, label string) jid.JID {
 	}
 	// Only addresses that survive their own string form are used as originals
 	// (the wire carries the string form).
+	// (the wire carries the string form: an address that does not survive its
+	// own string form cannot come back equivalent in any stanza.  No such address
+	// exists on a tree where the addresses are canonical; the generator does not
+	// hide one behind a fallback.)
 	if back, err := jid.Parse(j.String()); err != nil || !back.Equal(j) {
-		ev.Class("jid-string-form-not-stable-fallback-used")
-		return fallbackJID
+		ev.Failf(t, "the address built from the parts (%q, %q, %q) has the string form %q, which parses to %v (error %v): a stanza carrying it in to/from/by cannot decode to an equivalent value", local, domain, res, j.String(), back, err)
 	}
 	return j
 }
